@@ -1,7 +1,7 @@
 (* Props/C05.v — property C05 (XMI half): loading depends on what a document says, not on how it is laid out.
    Only the property theorems (closed by `exact`), Print Assumptions and non-vacuity examples.
    parse_flt (float(str)) is universally quantified in every statement. *)
-From Cassis Require Import Base Heap Schema Canon Lex XmiDoc XmiLoad XmiLoadProofs XmiLoadProofs2 XmiLoadProofs3.
+From Cassis Require Import Base Heap Schema Canon Lex XmiDoc XmiLoad XmiLoadProofs XmiLoadProofs2 XmiLoadProofs3 XmiLoadProofs4.
 Open Scope Z_scope.
 
 (* The declarative meaning of a closed document (ids distinct, references resolvable) whose elements carry no attribute
@@ -167,6 +167,112 @@ Proof. vm_compute. repeat split; reflexivity. Qed.
 
 Example C05_total_premises_hold : total_okb ex_schema ex_doc = true /\ total_okb ex_schema ex_doc0 = true.
 Proof. vm_compute. split; reflexivity. Qed.
+
+(* ---- fourth wave (XmiLoadProofs4.v) ---- *)
+(* Order independence for documents with or without an _InitialView sofa (reader_okb0 instead of reader_okb). *)
+Theorem C05_load_order_independent_general : forall parse_flt s d d' c c',
+  reader_okb0 parse_flt s d = true -> reader_okb0 parse_flt s d' = true -> attrs_nodupb d = true -> presentation_equiv d d' ->
+  load_xmi parse_flt s false d = Ok c -> load_xmi parse_flt s false d' = Ok c' -> canon_loaded s c' = canon_loaded s c.
+Proof. exact load_order_independent_gen. Qed.
+Print Assumptions C05_load_order_independent_general.
+
+(* Lenient loading (lenient=True) of a document that contains elements of types the type system does not define - a
+   document written against a richer type system.  drop_unknown s d is the document without those elements and without
+   their ids in the member lists; dropped_ids_okb: the xmi:id of a skipped element is absent, empty or a number.  The
+   loaded CAS has the content THAT document denotes: nothing a skipped element carries (attributes, nested child
+   elements) reaches another feature structure. *)
+Theorem C05_load_lenient_is_denotation : forall parse_flt s d c,
+  dropped_ids_okb s d = true -> reader_okb0 parse_flt s (drop_unknown s d) = true -> load_xmi parse_flt s true d = Ok c ->
+  canon_loaded s c = res_map with_initial (denote_xmi parse_flt s (drop_unknown s d)).
+Proof. exact load_lenient_is_denotation. Qed.
+Print Assumptions C05_load_lenient_is_denotation.
+Theorem C05_load_lenient_total : forall parse_flt s d,
+  dropped_ids_okb s d = true -> reader_okb0 parse_flt s (drop_unknown s d) = true -> total_okb s (drop_unknown s d) = true ->
+  exists c, load_xmi parse_flt s true d = Ok c /\
+            canon_loaded s c = res_map with_initial (denote_xmi parse_flt s (drop_unknown s d)).
+Proof. exact load_lenient_total. Qed.
+Print Assumptions C05_load_lenient_total.
+(* ... and therefore does not depend on the order of the elements, in particular not on where the skipped elements
+   stand relative to the others (clause "order of feature-structure elements", configuration lenient=True) *)
+Theorem C05_load_lenient_order_independent : forall parse_flt s d d' c c',
+  dropped_ids_okb s d = true ->
+  reader_okb0 parse_flt s (drop_unknown s d) = true -> reader_okb0 parse_flt s (drop_unknown s d') = true ->
+  attrs_nodupb (drop_unknown s d) = true -> Permutation d d' ->
+  load_xmi parse_flt s true d = Ok c -> load_xmi parse_flt s true d' = Ok c' -> canon_loaded s c' = canon_loaded s c.
+Proof. exact load_lenient_order_independent. Qed.
+Print Assumptions C05_load_lenient_order_independent.
+Theorem C05_load_lenient_same_as_strict : forall parse_flt s d c c',
+  forallb (fun e => negb (unknown s e)) d = true ->
+  load_xmi parse_flt s true d = Ok c -> load_xmi parse_flt s false d = Ok c' -> canon_loaded s c = canon_loaded s c'.
+Proof. exact load_lenient_same_as_strict. Qed.
+Print Assumptions C05_load_lenient_same_as_strict.
+
+(* The spellings of an empty view (clause "omission of empty views"): a View element without members - empty_view: the
+   members attribute is absent or holds white space only - may be written either way or left out; all three documents
+   denote the same content and load to it. *)
+Theorem C05_empty_view_spelling_denote : forall parse_flt s d1 e e' d2, empty_view e -> empty_view e' ->
+  doc_ok_xmi parse_flt s (d1 ++ e :: d2) = true -> attrs_nodupb (d1 ++ e :: d2) = true ->
+  doc_ok_xmi parse_flt s (d1 ++ e' :: d2) = true -> attrs_nodupb (d1 ++ e' :: d2) = true ->
+  denote_xmi parse_flt s (d1 ++ e' :: d2) = denote_xmi parse_flt s (d1 ++ e :: d2)
+  /\ denote_xmi parse_flt s (d1 ++ d2) = denote_xmi parse_flt s (d1 ++ e :: d2).
+Proof. exact empty_view_spelling_denote. Qed.
+Print Assumptions C05_empty_view_spelling_denote.
+Theorem C05_empty_view_spelling_load : forall parse_flt s d1 e e' d2 c c', empty_view e -> empty_view e' ->
+  reader_okb0 parse_flt s (d1 ++ e :: d2) = true -> attrs_nodupb (d1 ++ e :: d2) = true ->
+  reader_okb0 parse_flt s (d1 ++ e' :: d2) = true -> attrs_nodupb (d1 ++ e' :: d2) = true ->
+  load_xmi parse_flt s false (d1 ++ e :: d2) = Ok c -> load_xmi parse_flt s false (d1 ++ e' :: d2) = Ok c' ->
+  canon_loaded s c' = canon_loaded s c.
+Proof. exact empty_view_spelling_load. Qed.
+Print Assumptions C05_empty_view_spelling_load.
+
+(* non-vacuity.  (1) ex_doc with an element of the undefined type other.Unknown that has nested <tags> elements, put right
+   in front of the Tok 12 (which has a tags feature of its own) or at the end, and listed as a member of view 1: the
+   premises hold, the lenient model loads both, the tags of 12 are the three the document gives it, and the content is
+   the one of the strict load of ex_doc.  (2) ex_doc with a third sofa whose empty view is written without a members
+   attribute / with members="": both are empty views, both satisfy the premises, both load to the same content. *)
+Definition ex_unknown : xelem :=
+  mkX "http:///other.ecore"%string "Unknown"%string [("xmi:id"%string, "40"%string); ("sofa"%string, "1"%string); ("begin"%string, "0"%string)]
+      [("tags"%string, "blue"%string); ("next"%string, "7"%string)].
+Definition ex_view1 : xelem :=
+  mkX "http:///uima/cas.ecore"%string "View"%string [("sofa"%string, "1"%string); ("members"%string, "7 40 9 12"%string)] [].
+Definition ex_rest : xdoc := match ex_doc with _ :: _ :: r => r | _ => [] end.      (* ex_doc without its two View elements *)
+Definition ex_view2 : xelem := match ex_doc with v :: _ => v | _ => ex_view1 end.
+Definition ex_before : xdoc := firstn 4 ex_rest.       (* the two sofas, Tok 30, IntegerArray 20 *)
+Definition ex_after : xdoc := skipn 4 ex_rest.         (* Tok 12 (with tags), Holder 9, Tok 7, cas:NULL *)
+Definition ex_len_first : xdoc := ex_view2 :: ex_view1 :: (ex_before ++ ex_unknown :: ex_after).
+Definition ex_len_last : xdoc := ex_view2 :: ex_view1 :: ((ex_before ++ ex_after) ++ [ex_unknown]).
+Definition tags_of (i : Z) (r : res ccas) : res (option (option cval)) :=
+  res_map (fun cc => option_map (fun f => alookup "tags" (cf_feats f)) (alookup_z i (cc_fs cc))) r.
+Definition content_of (lenient : bool) (d : xdoc) : res ccas :=
+  do c <- load_xmi ex_flt ex_schema lenient d ;; canon_loaded ex_schema c.
+Example C05_lenient_premises_hold :
+  forallb (fun d => dropped_ids_okb ex_schema d && reader_okb0 ex_flt ex_schema (drop_unknown ex_schema d)
+                    && total_okb ex_schema (drop_unknown ex_schema d) && attrs_nodupb (drop_unknown ex_schema d)
+                    && existsb (unknown ex_schema) d) [ex_len_first; ex_len_last] = true
+  /\ Permutation ex_len_last ex_len_first
+  /\ tags_of 12 (content_of true ex_len_first) = Ok (Some (Some (CColl "uima.cas.StringArray" [CStr "x"; CNull; CStr "y z"])))
+  /\ content_of true ex_len_first = content_of false ex_doc
+  /\ content_of true ex_len_last = content_of false ex_doc
+  /\ content_of false ex_len_first = Err ETypeNotFound.
+Proof.
+  split; [vm_compute; reflexivity|]. split.
+  { unfold ex_len_last, ex_len_first. do 2 apply perm_skip. apply Permutation_sym.
+    eapply perm_trans; [apply Permutation_sym, Permutation_middle|apply Permutation_cons_append]. }
+  vm_compute. repeat split; reflexivity.
+Qed.
+
+Definition ex_sofa3 : xelem :=
+  mkX "http:///uima/cas.ecore"%string "Sofa"%string [("xmi:id"%string, "50"%string); ("sofaNum"%string, "3"%string); ("sofaID"%string, "third"%string)] [].
+Definition ex_ev_absent : xelem := mkX "http:///uima/cas.ecore"%string "View"%string [("sofa"%string, "50"%string)] [].
+Definition ex_ev_blank : xelem := mkX "http:///uima/cas.ecore"%string "View"%string [("members"%string, ""%string); ("sofa"%string, "50"%string)] [].
+Example C05_empty_view_premises_hold :
+  empty_view ex_ev_absent /\ empty_view ex_ev_blank /\
+  forallb (fun e => reader_okb0 ex_flt ex_schema ([ex_sofa3] ++ e :: ex_doc) && total_okb ex_schema ([ex_sofa3] ++ e :: ex_doc)
+                    && attrs_nodupb ([ex_sofa3] ++ e :: ex_doc)) [ex_ev_absent; ex_ev_blank] = true /\
+  content_of false ([ex_sofa3] ++ ex_ev_absent :: ex_doc) = content_of false ([ex_sofa3] ++ ex_doc) /\
+  res_map (fun cc => map (fun so => (cs_id so, cs_name so, cs_members so)) (cc_sofas cc)) (content_of false ([ex_sofa3] ++ ex_ev_absent :: ex_doc))
+    = Ok [(1, "_InitialView"%string, [7; 9; 12]); (2, "second"%string, [9; 30]); (50, "third"%string, [])].
+Proof. vm_compute. repeat split; reflexivity. Qed.
 
 (* ================================================================================================
    JSON half of C05: the statements below are proved in JsonProofs.v / JsonProofs2.v / JsonLoadProofs.v / JsonLex.v and
